@@ -112,6 +112,41 @@ def h_non_opening(client, kind):
     return h
 
 
+def h_refused_push_allocates_nothing(collected):
+    """PUSH_PROMISE frames racing our reset of their parent are refused one by one; however
+    many arrive, the stream table does not grow (the refusals live in the capped closed-stream
+    memory only)"""
+    def h():
+        with h2h.native():
+            c, s = h2h.pair()
+            c.send_headers(1, h2h.REQ)
+            h2h.pump(c, s)
+            s.push_stream(1, 2, h2h.REQ)
+            wire = models.parse_frames(s.data_to_send())[0].data
+            c.reset_stream(1)
+            c.data_to_send()
+            if collected:
+                c.open_outbound_streams
+        n0 = len(c.streams)
+        k = 0
+        for i in range(3):
+            pid = sym_choice('promised_%d' % i, [2, 4, 6, 2 ** 31 - 2])
+            f = hf.PushPromiseFrame(1)
+            f.flags.add('END_HEADERS')
+            f.promised_stream_id = pid
+            f.data = wire
+            try:
+                h2h.deliver(c, [f])
+            except h2.exceptions.ProtocolError:
+                note('connection-error')
+                return
+            k += 1
+            check(len(c.streams) <= n0, 'stream-state-allocated:refused-push-%d' % k,
+                  sorted(c.streams))
+        note('refused-3')
+    return h
+
+
 def h_size_limit_dict():
     def h():
         limit = sym_int('limit', 0, 8, default=3)
@@ -166,6 +201,8 @@ def h_continuation_backlog(n, foreign):
             f = hf.ContinuationFrame(3)
         else:
             f = hf.ContinuationFrame(1)
+        # an empty fragment counts like any other
+        f.data = sym_bytes('fragment_len', 0, 100, default=0)
         if sym_bool('end_headers'):
             f.flags.add('END_HEADERS')
         limit = h2.frame_buffer.CONTINUATION_BACKLOG
@@ -328,6 +365,10 @@ def shards(tier, seed):
         out.append(Shard('oversized/%s' % r, h_oversized(client, 'OversizedHeaderListError'),
                          expect=['refused']))
     out.append(Shard('size_limit_dict', h_size_limit_dict(), expect=['inserted']))
+    for collected in (False, True):
+        out.append(Shard('refused_push_allocates_nothing/%s' % (
+            'parent-collected' if collected else 'parent-present'),
+            h_refused_push_allocates_nothing(collected)))
     out.append(Shard('closed_streams_collected', h_closed_streams_collected(),
                      expect=['accept']))
     for n in (1, 2, 62, 63, 64, 65, 70):
